@@ -30,6 +30,72 @@ def call_chain(e) -> Tuple[Optional[str], List[Tuple[str, List[str]]]]:
     return text(e), list(reversed(chain))
 
 
+OPENERS = {"if", "ifdef", "ifndef"}
+CLOSERS = {"endif"}
+
+
+def _directive_context(prog, f, n):
+    """Directive spellings under which statement *n* of IsPreprocessorStatement executes: the `check_<direc>` handler it
+    is in, or constant tests on `direc` around it in run(); None = not tied to a directive (any)."""
+    if f.cls is None or f.cls.name != "IsPreprocessorStatement":
+        return None
+    if f.name.startswith("check_"):
+        return {f.name[len("check_"):]}
+    out = None
+    for a in ancestors(n):
+        if isinstance(a, ast.If) and isinstance(a.test, ast.Compare) and len(a.test.ops) == 1 and text(a.test.left) == "direc":
+            in_body = any(x is n or any(y is n for y in ast.walk(x)) for x in a.body)
+            v = try_fold(a.test.comparators[0], f.mod)
+            vals = {v} if isinstance(v, str) else set(v) if isinstance(v, (tuple, list, set, frozenset)) else None
+            op = a.test.ops[0]
+            if vals is not None and in_body and isinstance(op, (ast.Eq, ast.In)):
+                out = vals if out is None else out & vals
+    return out
+
+
+def rule_nesting_state(run, prog, fn):
+    run.rule("R-14.5", "pairing: every piece of preprocessor state that the guard check reads and that a conditional-opening "
+             "directive (#if / #ifdef / #ifndef) writes is also written by the closing directive (#endif) -- state that "
+             "follows the nesting must be restored when a nested conditional closes (a single slot set on open describes "
+             "the last conditional opened, not the one being closed)", floor=1)
+    reads = set()
+    for n in walk_fn(fn.node):
+        if isinstance(n, ast.Attribute) and isinstance(n.ctx, ast.Load) and text(n.value) in ("context.preproc", "context"):
+            reads.add((text(n.value), n.attr))
+    # attributes of the PreProcessors object reached through its own methods (has_macro_defined reads self.macros ...)
+    pp = prog.classes.get("PreProcessors")
+    n_ob = 0
+    for base, attr in sorted(reads):
+        if base == "context" and attr in ("preproc", "file", "history", "tokens", "scope"):
+            continue
+        if pp is not None and base == "context.preproc" and attr in pp.methods and not any(
+                "property" in d for d in pp.methods[attr].decorators):
+            continue                                  # a method call, not state
+        writes = []
+        for f in prog.fns:
+            for n in walk_fn(f.node):
+                tg = n.targets if isinstance(n, ast.Assign) else [n.target] if isinstance(n, (ast.AugAssign, ast.AnnAssign)) else []
+                hit = any(isinstance(t, ast.Attribute) and t.attr in (attr, "_" + attr) and
+                          (text(t.value).endswith("preproc") if base == "context.preproc" else text(t.value) == "context")
+                          for t in tg)
+                if not hit and isinstance(n, ast.Call) and isinstance(n.func, ast.Attribute) \
+                        and n.func.attr in ("append", "extend", "pop", "remove", "clear", "insert", "add", "discard", "update") \
+                        and isinstance(n.func.value, ast.Attribute) and n.func.value.attr == attr \
+                        and (text(n.func.value.value).endswith("preproc") if base == "context.preproc" else text(n.func.value.value) == "context"):
+                    hit = True
+                if hit:
+                    writes.append((f, n, _directive_context(prog, f, n)))
+        opens = [(f, n) for f, n, d in writes if d is not None and d & OPENERS]
+        closes = [(f, n) for f, n, d in writes if d is not None and d & CLOSERS]
+        n_ob += 1
+        run.ob("R-14.5", f"{fn.key}::state[{base}.{attr}]", not opens or bool(closes),
+               f"{base}.{attr} is read by the guard check and written when a conditional opens ("
+               + ", ".join(f"{f.name}:{n.lineno}" for f, n in opens[:3]) + ") but never when one closes (#endif): after a nested "
+               "conditional it still describes the nested one, so the closing #endif of the guard is misjudged",
+               opens[0][1] if opens else fn.node, opening_writes=len(opens), closing_writes=len(closes))
+    run.require(n_ob >= 2, f"only {n_ob} state attributes read by the guard check (expected preproc.indent, protected)")
+
+
 def check(run, prog):
     cp = prog.cls("CheckPreprocessorProtection")
     fn = cp.methods.get("run")
@@ -188,3 +254,4 @@ def check(run, prog):
     okm = wr["macros"] and all(f.key == "rules/is_preprocessor_statement.py::IsPreprocessorStatement.check_define" for f, _ in wr["macros"])
     run.ob("R-14.4", "context.py::PreProcessors::macros-writers", bool(okm),
            "preproc.macros is modified outside check_define: " + ", ".join(f.key for f, _ in wr["macros"]), None)
+    rule_nesting_state(run, prog, fn)
